@@ -54,6 +54,9 @@ def main():
         ck.finish()
     ck.check_props()
     cases = G.exhaustive_small()[::5] + G.collections(ck.rng, 1200 if ck.quick else 10000, 2, 5) + G.collections(ck.rng, 150 if ck.quick else 2000, 6, 6 if ck.quick else 7)
+    # inputs that drive the pipeline (and its recording twin) through long legs: two-local chains, dense collections
+    cases += G.long_chain_cases(ck.rng, 28, 5) + G.long_chain_cases(ck.rng, 28, 6) + (G.long_chain_cases(ck.rng, 28, 7) if not ck.quick else G.long_chain_cases(ck.rng, 8, 7))
+    cases += G.dense_collections(ck.rng, 600 if ck.quick else 6000, 4, 5)
     cases.append(("corpus", 3, ["XYI", "XXZ", "IZI", "YXI", "ZII"]))
     cases.append(("corpus", 3, ["YZZ", "ZZI", "XYZ", "IXI", "YIZ", "IYY"]))
     res = ck.impl("c11", [{"gens": g} for _, _, g in cases], per_case_s=120)
@@ -118,7 +121,9 @@ def main():
             fewer = len(set(r["recorded"]["dependents"])) < len(set(r["plain"]["dependents"]))
             plain_valid = all(f in val[2 * i] for f in ("shape=1", "acct=1", "deps=1", "closure=1", "comps=1"))
             vq = val[2 * i + 1]
-            if dependent_vertex and fewer and plain_valid:
+            if dependent_vertex and plain_valid:
+                # root cause: the recording twin has no check_dependency_one_leg; whether the run then reports fewer dependents
+                # (first witnesses) or as many but different ones (found later, dense stream) is a symptom, not part of the signature
                 key = "recorded-attaches-dependent-vertex"
             elif plain_valid and "deps=0" in vq and "closure=0" in vq and "shape=1" in vq and "acct=1" in vq:
                 # the recorded run reported as dependent (and dropped) a generator that is independent of what it kept
